@@ -9,6 +9,10 @@ import FordModel.Lemmas.Escape
 import FordModel.Lemmas.Show
 import FordModel.AttrStmt
 import FordModel.Lemmas.AttrStmt
+import FordModel.ProcPrefix
+import FordModel.Lemmas.ProcPrefix
+import FordModel.DeclLine
+import FordModel.Lemmas.DeclLine
 import FordModel.Generated.C18
 namespace Ford.C18
 open Ford Ford.Html Ford.Show Ford.Generated.C18
@@ -390,5 +394,242 @@ theorem args_matched_first_lose_attribs_witness :
     (runCleanup procStepsSound st).map (·.args) =
       some [.var { n with intent := chars! "in", attribs := [chars! "value"] }] := by
   decide
+
+/-! ## round 4: the prefix of a procedure statement, the name of a declared entity -/
+
+open Ford.ProcPrefix in
+/-- Obligation on the *generated* table of prefix keywords (`_list_of_procedure_attributes`, in the order in
+    which the loop tries them): while a keyword is recognised by a substring test no keyword may occur inside a
+    keyword that is tried later - `impure` must be found and deleted before `pure` is looked for,
+    `non_recursive` before `recursive`.  A reordering of the table breaks this obligation (the heading then
+    says `pure` for an `impure` procedure).  With word-wise recognition (repaired code) the order is free. -/
+theorem prefix_table_sound : prefixByWord = true ∨ orderSound procPrefixes = true := by decide
+
+/-- the table knows every prefix of Fortran 2018 (R1527) that is not a type specification, once -/
+theorem prefix_table_complete :
+    (∀ k ∈ [chars! "elemental", chars! "impure", chars! "module", chars! "non_recursive",
+            chars! "pure", chars! "recursive"], k ∈ procPrefixes) ∧ procPrefixes.Nodup := by decide
+
+open Ford.ProcPrefix in
+/-- "procedure heading ... is textually the declaration": for *every* table in a sound order and every prefix
+    written as blank-separated chunks, each chunk (lower-cased) a keyword of the table or a text in which no
+    keyword occurs (the type of the result: `integer`, `real(kind=dp)`, `double` `precision`), the substring loop
+    reports exactly the keywords that were written - none invented, none lost - and hands the other chunks on
+    unchanged (blanks removed) as the type specification of the result. -/
+theorem prefixes_recognised_substring (table : List Str) (hs : orderSound table = true) (ws : List Str)
+    (hne : joinSep ' ' ws ≠ [])
+    (hw : ∀ w ∈ ws.map lower, w ∈ table ∨ noKeyword table w = true) :
+    listProcAttrs table (joinSep ' ' ws) =
+      (table.filter (fun k => decide (k ∈ ws.map lower)),
+       (((ws.map lower).filter (fun w => !decide (w ∈ table))).map dropBlanks).flatten) := by
+  have hne' : (joinSep ' ' ws).isEmpty = false := by
+    cases h : joinSep ' ' ws with
+    | nil => exact absurd h hne
+    | cons _ _ => rfl
+  have hw' : ∀ w ∈ ws.map lower, w = [] ∨ w ∈ table ∨ noKeyword table w = true :=
+    fun w hm => Or.inr (hw w hm)
+  simp only [listProcAttrs, hne', Bool.false_eq_true, if_false, lower_joinSep]
+  rw [attrsGo_words table hs _ hw']
+  simp only [dropBlanks_joinSep, List.map_map]
+  congr 1
+  have := flatten_map_ite (fun w => decide (w ∈ table)) dropBlanks (ws.map lower)
+  simp only [decide_eq_true_eq, List.map_map] at this
+  rw [← this]
+  congr 1
+  apply List.map_congr_left
+  intro w _
+  by_cases h : lower w ∈ table <;> simp [h, dropBlanks]
+
+open Ford.ProcPrefix in
+/-- the same for word-wise recognition (repaired code): for every table without repetitions and every prefix
+    written as well-formed chunks (parentheses balanced, no blank outside them) - *whatever* the chunks contain:
+    `type(module_data)` is a type, not the prefix `module` -/
+theorem prefixes_recognised_words (table : List Str) (hn : table.Nodup) (ws : List Str)
+    (hne : joinSep ' ' ws ≠ []) (hw : ∀ w ∈ ws.map lower, chunkOk w 0 0 = true ∧ '\t' ∉ w) :
+    listProcAttrsW table (joinSep ' ' ws) =
+      (table.filter (fun k => decide (k ∈ ws.map lower)),
+       (((ws.map lower).filter (fun w => !decide (w ∈ table))).map dropBlanks).flatten) := by
+  have hne' : (joinSep ' ' ws).isEmpty = false := by
+    cases h : joinSep ' ' ws with
+    | nil => exact absurd h hne
+    | cons _ _ => rfl
+  have hws : ws.map lower ≠ [] := by
+    intro h
+    have : ws = [] := by simpa using h
+    subst this
+    exact hne rfl
+  simp only [listProcAttrsW, hne', Bool.false_eq_true, if_false, lower_joinSep]
+  rw [tabsToBlanks_joinSep _ (fun w hm => (hw w hm).2),
+    parenSplit_joinSep _ hws (fun w hm => (hw w hm).1), attrsWordsGo_eq _ _ hn, dropBlanks_flatten]
+  simp
+
+open Ford.ProcPrefix in
+/-- ... and for the code as it is today (generated table, generated variant): every prefix keyword written in
+    the statement, in any order and letter case, is in the heading, nothing else is, and the type written in the
+    prefix reaches `parse_type` whole.  (The excluded class - a keyword *inside* a chunk that is not a keyword,
+    `type(module_data) function f()` - is finding C18-prefix-keyword-inside-type-spec while the substring test
+    is in the code; see `prefix_inside_type_spec_witness`.) -/
+theorem prefixes_recognised_partial (ws : List Str) (hne : joinSep ' ' ws ≠ [])
+    (hw : ∀ w ∈ ws.map lower,
+      (w ∈ procPrefixes ∨ noKeyword procPrefixes w = true) ∧ chunkOk w 0 0 = true ∧ '\t' ∉ w) :
+    procAttrs prefixByWord procPrefixes (joinSep ' ' ws) =
+      (procPrefixes.filter (fun k => decide (k ∈ ws.map lower)),
+       (((ws.map lower).filter (fun w => !decide (w ∈ procPrefixes))).map dropBlanks).flatten) := by
+  by_cases hv : prefixByWord = true
+  · simp only [procAttrs, hv, if_true]
+    exact prefixes_recognised_words _ prefix_table_complete.2 ws hne (fun w hm => (hw w hm).2)
+  · have hs : orderSound procPrefixes = true := by
+      rcases prefix_table_sound with h | h
+      · exact absurd h hv
+      · exact h
+    simp only [procAttrs, hv, Bool.false_eq_true, if_false]
+    exact prefixes_recognised_substring _ hs ws hne (fun w hm => (hw w hm).1)
+
+open Ford.ProcPrefix in
+/-- what a "tidied" table (each keyword next to its opposite) does under the substring test: the order is
+    rejected by `orderSound`, and `impure elemental integer function` is headed `pure elemental` with the
+    left-over `im` glued to the type (`parse_type` then fails and the result falls back to the implicit type) -/
+theorem prefix_order_matters_witness :
+    let tidy := [chars! "pure", chars! "impure", chars! "elemental", chars! "recursive",
+                 chars! "non_recursive", chars! "module"]
+    orderSound tidy = false ∧
+    listProcAttrs tidy (chars! "impure elemental integer") = ([chars! "pure", chars! "elemental"], chars! "iminteger") ∧
+    listProcAttrs tidy (chars! "non_recursive") = ([chars! "recursive"], chars! "non_") ∧
+    listProcAttrsW tidy (chars! "impure elemental integer") =
+      ([chars! "impure", chars! "elemental"], chars! "integer") := by
+  decide
+
+open Ford.ProcPrefix in
+/-- the substring test also finds a keyword inside the type specification: `type(module_data) function f()` is
+    headed `module function` and its result is of type `_data` (finding C18-prefix-keyword-inside-type-spec);
+    word-wise recognition leaves the type alone -/
+theorem prefix_inside_type_spec_witness :
+    let table := [chars! "impure", chars! "pure", chars! "elemental", chars! "non_recursive",
+                  chars! "recursive", chars! "module"]
+    orderSound table = true ∧
+    listProcAttrs table (chars! "type(module_data)") = ([chars! "module"], chars! "type(_data)") ∧
+    listProcAttrsW table (chars! "type(module_data)") = ([], chars! "type(module_data)") ∧
+    listProcAttrsW table (chars! "Pure\ttype( module_data )") = ([chars! "pure"], chars! "type(module_data)") := by
+  decide
+
+/-- "dimensions ... is textually the declaration": the name of a declared entity is the text in front of its
+    first `(`, `[` or `*` - whichever of the three comes first *in the text* -, the rest is its dimension /
+    length: `label*(*)` is `label` + `*(*)`, `codes(n)*(4)` is `codes` + `(n)*(4)`, `s[*]` is `s` + `[*]`.
+    (It is under this name that `_cleanup` finds the declaration of a dummy argument or result.) -/
+theorem entity_name_is_leading_text (nm rest : Str) (c : Char) (hne : nm ≠ [])
+    (h : ∀ x ∈ nm, isNameDelim x = false) (hc : isNameDelim c = true) :
+    splitNameDim (nm ++ c :: rest) = (nm, c :: rest) :=
+  splitNameDim_leading nm rest c hne h hc
+
+/-- ... and an entity without any of the three is all name -/
+theorem entity_name_plain (nm : Str) (h : ∀ x ∈ nm, isNameDelim x = false) :
+    splitNameDim nm = (nm, []) :=
+  splitNameDim_plain nm h
+
+/-- position, not kind of delimiter, decides: cutting at "the first kind that occurs" (`(` before `[` before
+    `*`) is as lossless as the code (`name_dim_lossless` cannot tell them apart) but names `character label*(*)`
+    `label*`, so that the dummy argument `label` loses its declaration -/
+theorem split_by_kind_witness :
+    splitNameDim (chars! "label*(*)") = (chars! "label", chars! "*(*)") ∧
+    splitNameDimByKind (chars! "label*(*)") = (chars! "label*", chars! "(*)") ∧
+    (splitNameDimByKind (chars! "label*(*)")).1 ++ (splitNameDimByKind (chars! "label*(*)")).2 = chars! "label*(*)" ∧
+    splitNameDim (chars! "codes(n)*(4)") = splitNameDimByKind (chars! "codes(n)*(4)") := by
+  decide
+
+/-! ## round 4: the attribute list of a type declaration -/
+
+open Ford.DeclLine in
+/-- Obligation on the *generated* if-chain of `line_to_variables`: the attributes that are turned into a field of
+    their own are exactly the visibility keywords, `optional`, `parameter` and the three `intent`s, each to its own
+    field with its own value - a branch that stores `intent(out)` as `in`, or that swallows another attribute,
+    breaks this -/
+theorem decl_attr_rules_sound :
+    (∀ r ∈ rulesSpec, r ∈ declAttrRules) ∧ (∀ r ∈ declAttrRules, r ∈ rulesSpec) ∧
+    (declAttrRules.map Prod.fst).Nodup := by decide
+
+open Ford.DeclLine in
+/-- "attributes ... is textually the declaration": for every rule table and every attribute list, the attributes
+    that have no field of their own are kept as written, all of them, in the order of the source -/
+theorem decl_attrs_kept (rules : Rules) (perm : Str) (as : List Str) :
+    (classify rules perm as).attribs = as.filter (isPlain rules) :=
+  classify_attribs rules perm as
+
+open Ford.DeclLine in
+/-- ... `optional` / `parameter` are set exactly when the declaration says so (in any spelling: the attribute is
+    compared lower-cased and without blanks) -/
+theorem decl_optional_parameter (rules : Rules) (perm : Str) (as : List Str) :
+    (classify rules perm as).optional = as.any (isOptRule rules) ∧
+    (classify rules perm as).parameter = as.any (isParamRule rules) := by
+  simp [classify, foldl_optional, foldl_parameter, DeclAttrs.init]
+
+open Ford.DeclLine in
+/-- ... the intent shown is the one written (the last one, should there be two), the visibility the one written, or
+    the default of the scope when none is -/
+theorem decl_intent_permission (rules : Rules) (perm : Str) (pre post : List Str) (a : Str) :
+    (∀ v, lookupRule rules (normAttr a) = some (.intent v) → (∀ b ∈ post, isIntentRule rules b = false) →
+      (classify rules perm (pre ++ a :: post)).intent = v) ∧
+    (lookupRule rules (normAttr a) = some .permission → (∀ b ∈ post, isPermRule rules b = false) →
+      (classify rules perm (pre ++ a :: post)).permission = normAttr a) ∧
+    ((∀ b ∈ pre ++ a :: post, isPermRule rules b = false) →
+      (classify rules perm (pre ++ a :: post)).permission = perm) :=
+  ⟨fun v ha hp => classify_intent_last rules perm pre post a v ha hp,
+   fun ha hp => classify_permission_last rules perm pre post a ha hp,
+   fun hp => classify_permission_default rules perm _ hp⟩
+
+open Ford.DeclLine in
+/-- a declaration without attributes needs no `::`: `integer n` and `integer :: n` give the same entity list -/
+theorem old_style_declaration_same_entities (d : Str) (h : TypeSpec.skipWs d = d)
+    (hc : ∀ t, d ≠ ':' :: ':' :: t) :
+    attribSplit2 (':' :: ':' :: ' ' :: d) = d ∧ attribSplit2 (' ' :: d) = d :=
+  attribSplit2_colons d h hc
+
+open Ford.DeclLine in
+/-- non-vacuity / the whole function on one line: `Character(len=8), Intent( In ), OPTIONAL, target :: label*(*), s(3)` -/
+theorem line_vars_example :
+    let r := (lineVars declAttrRules false true (chars! "public")
+        ((chars! "Character(len=8), Intent( In ),") ++ (chars! " OPTIONAL, target :: ") ++
+         (chars! "label*(*), s(3)"))).toOption
+    r.map (fun vs => vs.map (fun v => (v.name, v.dimension, v.attrs.attribs))) =
+      some [(chars! "label", chars! "*(*)", [chars! "target"]), (chars! "s", chars! "(3)", [chars! "target"])] ∧
+    r.map (fun vs => vs.map (fun v => (v.attrs.intent, v.attrs.optional, v.strlen))) =
+      some [(chars! "in", true, some (chars! "8")), (chars! "in", true, some (chars! "8"))] := by
+  decide
+
+open Ford.AttrStmt in
+/-- an ALLOCATABLE / POINTER / TARGET statement with an array spec (`allocatable :: c(:)`): the variable shows the
+    attribute and the array spec of the statement - for every variable and every such attribute -/
+theorem shape_statement_shown (p : List (Str × Str)) (v : DVar) (a : Str) (h : isShapeAttr a = true)
+    (hp : isPermission a = false) (hi : a.take 6 ≠ (chars! "intent")) :
+    a.takeWhile (· != '(') ∈ (applyAttr p v a).attribs ∧
+    ∃ t, (applyAttr p v a).dimension = a.dropWhile (· != '(') ++ t ∧
+      (Generated.C18Cfg.shapeKeepsLength = true → v.dimension.head? ≠ some '(' → t = v.dimension) := by
+  unfold applyAttr
+  rw [if_neg (by simp [hp]), if_neg (by simpa using hi), if_pos h]
+  refine ⟨by simp, _, rfl, ?_⟩
+  intro hk hd
+  simp [hk, hd]
+
+open Ford.AttrStmt in
+/-- what the two forms of that branch do to `character(len=:) :: title*(80)` + `allocatable title(:)`: the code as
+    it was shows `title(:)` (finding C18-shape-statement-drops-length), the repaired form `title(:)*(80)`; an array
+    spec of the declaration itself is replaced in both -/
+theorem shape_statement_length_witness :
+    shapeDimensionV false (chars! "*(80)") (chars! "allocatable(:)") = chars! "(:)" ∧
+    shapeDimensionV true (chars! "*(80)") (chars! "allocatable(:)") = chars! "(:)*(80)" ∧
+    shapeDimensionV true (chars! "(3)") (chars! "pointer(:)") = chars! "(:)" := by
+  decide
+
+open Ford.ProcPrefix in
+/-- "argument list ... is textually the declaration": for every list of argument names (each not empty, without
+    comma or white space) written `(a, b, c)`, the names of the heading are these names, in this order -/
+theorem heading_argument_list (names : List Str) (h : ∀ n ∈ names, argOk n = true) :
+    procArgs ('(' :: joinStr [',', ' '] names ++ [')']) = names :=
+  procArgs_names names h
+
+open Ford.ProcPrefix in
+/-- blanks around the names and commas do not matter, an empty list gives no arguments -/
+theorem heading_argument_list_blanks :
+    procArgs (chars! "( a ,b,  c )") = [chars! "a", chars! "b", chars! "c"] ∧
+    procArgs (chars! "()") = [] ∧ procArgs (chars! "( )") = [] := by decide
 
 end Ford.C18
